@@ -35,4 +35,10 @@ func init() {
 		Explain:     "configuration space enumerated completely, payloads and hint combinations sampled",
 		Assumptions: []string{"capacity / fit decided by internal/qrref (standard formulae)", "charset hints are only given for text representable in that charset (x/text round trip)", "margin hint >= 4 or absent"},
 	}
+	configs["C08"] = cfg{
+		Level: "exploration", QuickShards: 8, ThorShards: 16, QuickTO: 5 * time.Minute, ThorTO: 30 * time.Minute,
+		Rule:        "Differential against internal/dmref (ISO 16022 attribute table typed from table 7, LFSR RS over own GF(256)/0x12D with generator prod(x-2^i), Annex F placement re-implemented, finder/clock tracks, Annex B randomisers). vectors_all_sizes: every one of the 30 sizes x data codeword vectors of exactly its capacity (random, zero, 0xFF, pad-only, single, ramp): ErrorCorrection_EncodeECC200 == reference interleaved parity, DefaultPlacement == reference mapping matrix; writer_texts / writer_padding_all_sizes: DataMatrixWriter.Encode(text, 0x0, size forced) == reference symbol built from the library's own high-level codewords, observed padding follows the 253-state rule; base256_streams: Base-256 segments in real streams un-randomise to length + data; factor_tables (16), randomisers (positions 1..1558, all 256 values), size_tables (encoder entry == decoder entry == standard for all 30 sizes, lookup order, DMRE rows self-consistent) are enumerated completely. Non-trivial = every compared vector / symbol / table entry; distinct by case hash.",
+		Explain:     "size space, parity lengths, positions and table entries enumerated completely; codeword vectors and texts sampled",
+		Assumptions: []string{"which encodation the high-level encoder picks is not part of this property (the reference symbol is built from the library's own data codewords)", "144x144 parity order: blocks 1-8 after blocks 9-10 (the order the library's decoder and other implementations read)"},
+	}
 }
